@@ -50,9 +50,10 @@ Definition rmap {A B} (f : A -> B) (r : res A) : res B :=
 Definition rbind {A B} (r : res A) (f : A -> res B) : res B :=
   match r with Ok a => f a | Err e => Err e | Panic s => Panic s end.
 
-(* panic sites *)
-Definition site_tdate_to_offset : N := 1.   (* tdate.rs: .to_offset(UtcOffset::UTC), year > 9999 *)
-Definition site_tdate_format : N := 2.      (* tdate.rs: .format(&Rfc3339).unwrap(), year < 0 *)
+(* panic sites.  The conversions modelled here have one left: tdate.rs
+   `.replace_millisecond(0).unwrap()`, which cannot fail (0 is a valid millisecond); the former two
+   (to_offset, format(..).unwrap()) were removed by 03d9d06.  Panic stays in the result type so that
+   C19_no_panic is a statement about the model and the harness can report a panic of the code. *)
 
 Fixpoint jget (k : bytes) (kvs : list (bytes * json)) : option json :=
   match kvs with
@@ -204,9 +205,10 @@ Fixpoint latin1_chars_ok (s : bytes) : bool :=
          end
   end.
 
+(* s.chars().count(): the scalars of a UTF-8 string are its non-continuation bytes *)
 Definition latin1_leaf (j : json) : res cbor :=
   rbind (string_leaf j) (fun s =>
-    if latin1_max_len <? blen s then Err EParsing            (* s.len() counts UTF-8 bytes *)
+    if latin1_max_len <? utf8_chars s then Err EParsing
     else if latin1_chars_ok s then Ok (CText s) else Err EParsing).
 
 (* ---------- decimal digits ---------- *)
@@ -243,9 +245,10 @@ Definition pad4 (z : Z) : bytes :=
 
 (* ---------- FullDate (fulldate.rs; time::Date::parse with "[year]-[month]-[day]") ---------- *)
 
-(* [year]: optional sign, then exactly four digits (large-dates is off); [month], [day]: exactly
-   two digits; Date::from_calendar_date checks the calendar; nothing may follow *)
-Definition fulldate_parse (s : bytes) : option (Z * Z * Z) :=
+(* time::Date::parse(s, "[year]-[month]-[day]").  [year]: optional sign, then exactly four digits
+   (large-dates is off); [month], [day]: exactly two digits; Date::from_calendar_date checks the
+   calendar; nothing may follow *)
+Definition time_date_parse (s : bytes) : option (Z * Z * Z) :=
   let '(neg, r) := match s with
                    | c :: r => if c =? 43 then (false, r) else if c =? 45 then (true, r) else (false, s)
                    | [] => (false, s)
@@ -263,8 +266,26 @@ Definition fulldate_parse (s : bytes) : option (Z * Z * Z) :=
   | _ => None
   end.
 
-(* write!(f, "{}-{:0>2}-{:0>2}", year, month, day): the year is NOT padded *)
-Definition fulldate_render (y m d : Z) : bytes := dec_z y ++ [45] ++ pad2 m ++ [45] ++ pad2 d.
+Definition is_digit (c : N) : bool := (48 <=? c) && (c <=? 57).
+
+(* FullDate::from_str: the first byte must be an ASCII digit (so no sign reaches time), then
+   Date::parse *)
+Definition fulldate_parse (s : bytes) : option (Z * Z * Z) :=
+  match s with
+  | c :: _ => if is_digit c then time_date_parse s else None
+  | [] => None
+  end.
+
+(* {:04} of an i32: zero padded to four characters (a sign counts), never truncated *)
+Definition fmt04 (y : Z) : bytes :=
+  if ((0 <=? y) && (y <? 10000))%Z then pad4 y
+  else if (y <? 0)%Z then
+    (if (-1000 <? y)%Z then 45 :: (let n := Z.to_N (- y) in [48 + n / 100; 48 + (n / 10) mod 10; 48 + n mod 10])
+     else dec_z y)
+  else dec_z y.
+
+(* write!(f, "{:04}-{:0>2}-{:0>2}", year, month, day) *)
+Definition fulldate_render (y m d : Z) : bytes := fmt04 y ++ [45] ++ pad2 m ++ [45] ++ pad2 d.
 
 Definition fulldate_leaf (j : json) : res cbor :=
   rbind (string_leaf j) (fun s =>
@@ -274,8 +295,6 @@ Definition fulldate_leaf (j : json) : res cbor :=
     end).
 
 (* ---------- TDate (tdate.rs; time::OffsetDateTime::parse(.., &Rfc3339)) ---------- *)
-
-Definition is_digit (c : N) : bool := (48 <=? c) && (c <=? 57).
 
 Fixpoint skip_digits (s : bytes) : bytes :=
   match s with
@@ -336,8 +355,11 @@ Definition tdate_fields (s : bytes) : option (Z * Z * Z * Z * Z * Z * Z * N) :=
 Definition tdate_render (y mo d h mi sec : Z) : bytes :=
   pad4 y ++ [45] ++ pad2 mo ++ [45] ++ pad2 d ++ [84] ++ pad2 h ++ [58] ++ pad2 mi ++ [58] ++ pad2 sec ++ [90].
 
-(* parse, validate, convert to UTC, drop the sub-second part, print *)
-Definition tdate_convert (s : bytes) : res bytes :=
+(* OffsetDateTime::parse(&s, &Rfc3339) followed by checked_to_offset(UTC), replace_millisecond(0),
+   format(&Rfc3339): parse, validate, convert to UTC, drop the sub-second part, print.  A UTC
+   year above 9999 makes checked_to_offset return None, one below 0 makes format fail: both are
+   mapped to a parsing error. *)
+Definition time_convert (s : bytes) : res bytes :=
   match tdate_fields s with
   | None => Err EParsing
   | Some (y, mo, d, h, mi, sec, off, _) =>
@@ -350,9 +372,24 @@ Definition tdate_convert (s : bytes) : res bytes :=
     let '(uy, um, ud) := civil_from_days days in
     (* a leap second must be 23:59:59 UTC on the last day of a month (and the UTC date must exist) *)
     if leap && negb ((sod =? 86399) && (ud =? days_in_month uy um) && (uy <=? 9999))%Z then Err EParsing
-    else if (9999 <? uy)%Z then Panic site_tdate_to_offset
-    else if (uy <? 0)%Z then Panic site_tdate_format
+    else if (9999 <? uy)%Z then Err EParsing      (* checked_to_offset -> None *)
+    else if (uy <? 0)%Z then Err EParsing         (* format(&Rfc3339) -> Err *)
     else Ok (tdate_render uy um ud (sod / 3600)%Z ((sod mod 3600) / 60)%Z (sod mod 60)%Z)
+  end.
+
+(* TDate::from_json, the two byte-position checks made before time sees the string:
+   bytes.get(10) must be 'T', 't' or ' ' (a shorter string fails here), and bytes.get(17..19) must
+   not be "60" (None for a string shorter than 19 bytes: the check passes, time then rejects) *)
+Definition tdate_convert (s : bytes) : res bytes :=
+  match nth_error s 10 with
+  | Some sep =>
+    if (sep =? 84) || (sep =? 116) || (sep =? 32) then
+      match nth_error s 17, nth_error s 18 with
+      | Some a, Some c => if (a =? 54) && (c =? 48) then Err EParsing else time_convert s
+      | _, _ => time_convert s
+      end
+    else Err EParsing
+  | None => Err EParsing
   end.
 
 Definition tdate_leaf (j : json) : res cbor :=
@@ -634,13 +671,14 @@ Section WithBase64.
       end
     end.
 
-  (* BiometricTemplate::from_map: every key starting with biometric_template_ (any suffix, even
-     empty); the value is a ByteStr *)
+  (* BiometricTemplate::from_map: every key starting with biometric_template_ followed by a
+     non-empty suffix; the value is a ByteStr *)
   Fixpoint biometric_entries (kvs : list (bytes * json)) : res (list (bytes * cbor)) :=
     match kvs with
     | [] => Ok []
     | (k, v) :: r =>
       match strip_prefix c19_biometric_prefix k with
+      | Some [] => biometric_entries r           (* .filter(|k| !k.is_empty()) *)
       | Some _ =>
         match bytestr_leaf v with
         | Ok x => rmap (cons (k, x)) (biometric_entries r)
@@ -652,10 +690,10 @@ Section WithBase64.
     end.
 
   (* Option<IssuingJurisdiction>::from_map (issuing_jurisdiction.rs): Missing from either lookup
-     turns into None *)
+     turns into None; a null issuing_jurisdiction counts as missing *)
   Definition issuing_jurisdiction_map (kvs : list (bytes * json)) : res fval :=
     match jget (b "issuing_jurisdiction") kvs with
-    | None => Ok FNone
+    | None | Some JNull => Ok FNone              (* .filter(|v| !v.is_null()).ok_or(Missing) *)
     | Some v =>
       match string_leaf v with
       | Err e => Err e
